@@ -325,7 +325,7 @@ impl Monitor for SerialMonitor {
 			let mons: Vec<ChannelMonitor<TapSigner>> = shadow_bytes.iter().filter_map(|(_, b)| Self::read_monitor(b, &keys).ok()).collect();
 			let read_mgr = |b: &[u8]| -> Result<Mgr, String> {
 				let refs: Vec<&ChannelMonitor<TapSigner>> = mons.iter().collect();
-				let args = ChannelManagerReadArgs::new(keys.clone(), keys.clone(), keys.clone(), fee.clone(), watch.clone(), bcast.clone(), Arc::new(NoRouter), Arc::new(NoRouter), logger.clone(), node.cfg.user.clone(), refs);
+				let args = ChannelManagerReadArgs::new(keys.clone(), keys.clone(), keys.clone(), fee.clone(), watch.clone(), bcast.clone(), Arc::new(NoRouter::default()), Arc::new(NoRouter::default()), logger.clone(), node.cfg.user.clone(), refs);
 				match vcore::guarded(|| <(BlockLocator, Mgr)>::read(&mut &b[..], args)) {
 					Ok(Ok((_, m))) => Ok(m),
 					Ok(Err(e)) => Err(format!("{:?}", e)),
